@@ -103,8 +103,12 @@ func (t *c05Tpt) DialWithUpdates(ctx context.Context, a ma.Multiaddr, p peer.ID,
 		h.mu.Unlock()
 	}()
 	for {
+		done := ctx.Done()
+		if h.slowCancel {
+			done = nil // a transport that does not notice the cancellation until it is told to end
+		}
 		select {
-		case <-ctx.Done():
+		case <-done:
 			return nil, ctx.Err()
 		case c := <-pk.cmd:
 			switch c.kind {
@@ -143,10 +147,30 @@ func (t *c05Tpt) Protocols() []int {
 func (t *c05Tpt) Proxy() bool { return t.proxy }
 
 // ---- gater ---------------------------------------------------------------------------
-type c05Gater struct{ refuseNext bool }
+type c05Gater struct {
+	refuseNext bool
+	mu         sync.Mutex
+	park       chan struct{} // when set: the next InterceptAddrDial parks until it is closed
+	parkedNow  bool
+}
 
-func (g *c05Gater) InterceptPeerDial(peer.ID) bool                                       { return true }
-func (g *c05Gater) InterceptAddrDial(peer.ID, ma.Multiaddr) bool                         { return true }
+func (g *c05Gater) InterceptPeerDial(peer.ID) bool { return true }
+func (g *c05Gater) InterceptAddrDial(peer.ID, ma.Multiaddr) bool {
+	g.mu.Lock()
+	ch := g.park
+	g.park = nil
+	if ch != nil {
+		g.parkedNow = true
+	}
+	g.mu.Unlock()
+	if ch != nil {
+		<-ch
+		g.mu.Lock()
+		g.parkedNow = false
+		g.mu.Unlock()
+	}
+	return true
+}
 func (g *c05Gater) InterceptAccept(network.ConnMultiaddrs) bool                          { return true }
 func (g *c05Gater) InterceptSecured(network.Direction, peer.ID, network.ConnMultiaddrs) bool { return true }
 func (g *c05Gater) InterceptUpgraded(network.Conn) (bool, control.DisconnectReason) {
@@ -191,6 +215,7 @@ type c05W struct {
 	parked    map[int64]*c05Park
 	newDials  []int64
 	newEnds   []int64
+	slowCancel bool
 	dialCount map[int64]int
 
 	reqs    []*c05Req
